@@ -390,3 +390,4 @@ RULES += [lazy("C06", "r3_retry_and_ack", "the listener's memory of acknowledged
           lazy("C02", "r9_executor_routing", "a purge reaches the data server (which waits for running transfers and invalidates pending ones), never the shm store directly")]
 RULES.append(lazy("C06", "r7b_acked_container_never_forgets", "a retried payload / command whose Syn was forgotten is stored or executed twice"))
 RULES.append(lazy("shm", "r_disk_copy", "what a transfer ships after the dataset was paged out and in again is byte-identical to what was stored"))
+RULES.append(lazy("shm", "r_client_protocol", "the data server stores a transferred payload through the shm client: a command re-sent blindly is answered 'conflict', taken for a redundant transmit, and the payload is never written nor announced"))
